@@ -10,7 +10,7 @@ EXPLANATION = (
     "name); on replacement shutdown(wait=True, kill_workers=...) precedes the reset of the globals which precedes the "
     "returned recursive construction with the new arguments; ids grow by one under the lock; the reuse branch resizes to "
     "the requested size, and the resize itself publishes the new size only together with the sentinels, after the wait for "
-    "running jobs (R-RESIZE: an interrupted resize must not leave the new size recorded without the workers); the factory call terminates structurally (R-POLL on the resize loops). Not decided: race outcomes as values."
+    "running jobs (R-RESIZE: an interrupted resize must not leave the new size recorded without the workers); the factory call terminates structurally (R-POLL on the resize loops), and the unbounded wait for the pending table to empty is backed by the whole-program obligation that every entry leaves the table (R-RESIZE-DRAIN: cancelled items, every feeder error class, delivered results). Not decided: race outcomes as values."
 )
 
 
@@ -20,5 +20,6 @@ def run(e, R, tier):
         L.r_iter_snapshot,
         X.r_singleton,
         X.r_resize,
+        X.r_resize_drain,
         lambda e, R: L.r_poll(e, R, only_funcs={f.qualname for f in e.prog.funcs.values() if f.module.name == "loky.reusable_executor"}),
     ])
